@@ -50,9 +50,9 @@ Theorem C21_needs_restore_iff : forall H bt n d f mt,
 Proof. exact verify_slow_iff. Qed.
 
 (* VerifyFiles (default Error callback): nil error iff every restored regular file is intact; count = all on success *)
-Theorem C21_verify_all_iff : forall H bt fl es,
+Theorem C21_verify_all_iff : forall H bt ow fl es,
   repo_ok H bt -> jobs_wf H bt fl es ->
-  let r := verify_files_abort H (lookup_size bt) fl es in
+  let r := verify_files_abort H (lookup_size bt) ow fl es in
   (fst r = true <-> forall e, In e (jobs fl es) -> e_intact bt e = true) /\
   (fst r = true -> snd r = N.of_nat (length (jobs fl es))) /\
   (fst r = false -> (snd r < N.of_nat (length (jobs fl es)))%N /\
@@ -65,15 +65,15 @@ Theorem C21_intact_meaning : forall bt o n d,
 Proof. exact intact_iff. Qed.
 
 (* VerifyFiles with cmd_restore's error-swallowing callback reports exactly the differing files *)
-Theorem C21_collect_reports_exactly_differing : forall H bt fl es,
+Theorem C21_collect_reports_exactly_differing : forall H bt ow fl es,
   repo_ok H bt -> jobs_wf H bt fl es ->
-  fst (verify_files_collect H (lookup_size bt) fl es)
+  fst (verify_files_collect H (lookup_size bt) ow fl es)
   = map e_loc (filter (fun e => negb (e_intact bt e)) (jobs fl es)).
 Proof. exact verify_collect_exact. Qed.
 
 (* the verdict does not depend on the order in which the workers take the jobs *)
-Theorem C21_schedule_independent : forall H sz js js',
-  Permutation.Permutation js js' -> forallb (job_ok H sz) js = forallb (job_ok H sz) js'.
+Theorem C21_schedule_independent : forall H sz ow js js',
+  Permutation.Permutation js js' -> forallb (job_ok H sz ow) js = forallb (job_ok H sz ow) js'.
 Proof. exact verdict_perm. Qed.
 
 (* files RestoreTo leaves out of verification as "metadata only" are intact at that moment *)
@@ -93,8 +93,8 @@ Theorem C21_oracle_file_slow_sound : forall bt ht hl mteq o n obs nr d,
   (nr = false <-> o = FReg d).
 Proof. exact oracle_file_slow_sound. Qed.
 
-Theorem C21_oracle_all_sound : forall bt ht fl es ok cnt rep cnt2,
-  check_C21 (CAll bt ht fl es ok cnt rep cnt2) = true ->
+Theorem C21_oracle_all_sound : forall bt ht ow fl es ok cnt rep cnt2,
+  check_C21 (CAll bt ht ow fl es ok cnt rep cnt2) = true ->
   (forall e, In e (jobs fl es) -> exists d, wf_node bt (e_node e) d) ->
   (ok = true <-> forall e, In e (jobs fl es) -> e_intact bt e = true) /\
   (ok = true -> cnt = N.of_nat (length (jobs fl es))) /\
@@ -122,12 +122,21 @@ Theorem C21_hardlink_rule_not_in_failfast : forall H bt hl trust mteq o n,
   verify_file_x H (lookup_size bt) hl true trust mteq o n = XRes (verify_file H (lookup_size bt) true trust mteq o n).
 Proof. exact verify_file_x_fast. Qed.
 
-Theorem C21_model_sat_oracle_all : forall H bt ht fl es,
+Theorem C21_model_sat_oracle_all : forall H bt ow ht fl es,
   repo_ok H bt -> (forall e, In e (jobs fl es) -> sp_free H bt (n_content (e_node e))) ->
-  let a := verify_files_abort H (lookup_size bt) fl es in
-  let k := verify_files_collect H (lookup_size bt) fl es in
-  check_C21 (CAll bt ht fl es (fst a) (snd a) (fst k) (snd k)) = true.
+  let a := verify_files_abort H (lookup_size bt) ow fl es in
+  let k := verify_files_collect H (lookup_size bt) ow fl es in
+  check_C21 (CAll bt ht ow fl es (fst a) (snd a) (fst k) (snd k)) = true.
+
+
 Proof. exact model_sat_oracle_all. Qed.
+
+(* the verification never uses the size+mtime shortcut, whatever --overwrite says: the outcome is independent of the
+   overwrite option and of the files' mtimes *)
+Theorem C21_verify_ignores_overwrite_mode : forall H sz ow ow' fl es,
+  verify_files_abort H sz ow fl es = verify_files_abort H sz ow' fl es /\
+  verify_files_collect H sz ow fl es = verify_files_collect H sz ow' fl es.
+Proof. intros. split; reflexivity. Qed.
 
 Theorem C21_model_sat_oracle_track : forall H bt ht ow newer mteq o n,
   repo_ok H bt -> sp_free H bt (n_content n) ->
@@ -151,5 +160,6 @@ Print Assumptions C21_oracle_all_sound.
 Print Assumptions C21_model_sat_oracle_file.
 Print Assumptions C21_model_sat_oracle_all.
 Print Assumptions C21_model_sat_oracle_track.
+Print Assumptions C21_verify_ignores_overwrite_mode.
 Print Assumptions C21_hardlink_rule_same_decision.
 Print Assumptions C21_hardlink_rule_not_in_failfast.
